@@ -269,11 +269,7 @@ Proof.
     cbn [step]. destruct (create_child_sa c v1 v2 (sad s)) as [ok l'] eqn:E. destruct ok.
     + apply create_child_sa_ok in E as (N1 & N2 & Hne & Hl). apply track_inv; assumption.
     + pose proof (create_child_sa_fail _ _ _ _ _ E) as Hl. destruct HI as [Hnd Hiff].
-      cbn [op_ok] in Hok. destruct Hok as [F1 F2]. rewrite tracked_keys_keys in Hnd, F1, F2.
-      apply teardown_inv_gen.
-      * exact Hnd.
-      * intros k. rewrite Hl. apply Hiff.
-      * intros oc [Hoc|[]]. subst oc. split; [reflexivity|]. intros k [Hk|Hk]; cbn [snd] in Hk; subst k; assumption.
+      apply teardown_inv. split; [exact Hnd|]. intros k. cbn [sad]. rewrite Hl. apply Hiff.
   - (* DeleteChild *)
     destruct HI as [Hnd Hiff]. cbn [op_ok] in Hok. cbn [step]. rewrite tracked_keys_keys in Hnd. split.
     + rewrite tracked_keys_mk. apply nodup_keys_filter. exact Hnd.
@@ -377,7 +373,9 @@ Proof.
   cbn [fst] in Hf. subst ok. split.
   - intros oc Hoc. rewrite teardown_tracked in Hoc. apply filter_In in Hoc as [_ Hne].
     intros E'. rewrite E', Nat.eqb_refl in Hne. discriminate Hne.
-  - apply teardown_removes_keys. cbn [tracked]. apply in_or_app. right. left. reflexivity.
+  - pose proof (create_child_sa_fail _ _ _ _ _ E) as Hl. destruct HI as [_ Hiff].
+    cbn [op_ok] in Hok. destruct Hok as [F1 F2].
+    split; intros Hin; apply teardown_sad_in in Hin as [Hin _]; cbn [sad] in Hin; apply Hl, Hiff in Hin; contradiction.
 Qed.
 
 (** * Non-vacuity: a concrete run the hypotheses admit *)
